@@ -133,8 +133,33 @@ MINI = {
                   "ENTITY tank; label : STRING; level : INTEGER;\n DERIVE\n  shown : STRING := 'level %d/%d';\n WHERE\n  wr1 : label <> 'value in %x';\n  wr2 : label <> '%d %%';\nEND_ENTITY;\n"
                   "FUNCTION ff (s : STRING) : STRING;\n  IF s = 'in %d function' THEN RETURN ('%s'); END_IF;\n  RETURN ('%d%d%d%d%d%d%d%d');\nEND_FUNCTION;\n"
                   "RULE rr FOR (tank);\n WHERE\n  wr1 : SIZEOF (QUERY (t <* tank | t.label = 'rule %d %s')) = 0;\nEND_RULE;\nEND_SCHEMA;\n"),
+    # the same with numeric conversions only (a printf that is handed such a literal as its format survives and prints whatever the registers hold)
+    'm_percent_num': ("SCHEMA m_percent_num;\nCONSTANT\n  c1 : STRING := 'loaded %d of %d items';\n  c2 : STRING := '%x %x %x %x %x %x';\n  c3 : STRING := '%ld %lu %lx %p %p';\nEND_CONSTANT;\n"
+                      "TYPE tt = STRING;\n WHERE\n  wt : SELF <> 'type %d rule %x';\nEND_TYPE;\n"
+                      "ENTITY tank; label : STRING; level : INTEGER;\n DERIVE\n  shown : STRING := 'level %d/%d/%d/%d';\n WHERE\n  wr1 : label <> 'value in %x %x %p';\n  wr2 : label <> '%d %%';\nEND_ENTITY;\n"
+                      "FUNCTION ff (s : STRING) : STRING;\n  IF s = 'in %d function %p' THEN RETURN ('%x%x%x'); END_IF;\n  RETURN ('%d%d%d%d%d%d%d%d');\nEND_FUNCTION;\nEND_SCHEMA;\n"),
     'm_strlit': "SCHEMA m_strlit;\nCONSTANT\n  s1 : STRING := 'plain';\n  s2 : STRING := 'it''s';\n  s3 : STRING := \"00000041\";\n  s4 : STRING := '';\n  b1 : BINARY := %0101;\nEND_CONSTANT;\nEND_SCHEMA;\n",
 }
+
+
+# a second schema that interfaces items of every kind from the first, renamed: an entity (USE and REFERENCE), a type, a constant, a function, a procedure
+MULTI_ITEMS = """SCHEMA mi_a;
+CONSTANT c1 : REAL := 1.5; END_CONSTANT;
+TYPE ta = REAL; END_TYPE;
+TYPE sa = ENUMERATION OF (on_, off_); END_TYPE;
+FUNCTION f1 (x : REAL) : REAL; RETURN (x); END_FUNCTION;
+PROCEDURE p1 (VAR x : REAL); x := x + 1.0; END_PROCEDURE;
+ENTITY ea; v : REAL; END_ENTITY;
+ENTITY ea2; v2 : ta; END_ENTITY;
+END_SCHEMA;
+SCHEMA mi_b;
+USE FROM mi_a (ea2 AS eb2, sa AS sb);
+REFERENCE FROM mi_a (c1 AS k1, f1 AS g1, p1, ea AS eb, ta);
+ENTITY e; w : REAL; r : eb; r2 : OPTIONAL eb2; s : sb; t : ta;
+ WHERE w1 : g1 (w) > k1;
+END_ENTITY;
+END_SCHEMA;
+"""
 
 
 def shipped():
@@ -183,7 +208,7 @@ def interface_family(tier='quick'):
 
 def valid_schemas(tier='quick', with_models=True):
     """[(name, text)] - single files; valid by construction"""
-    out = [('ks', KS), ('multi', MULTI)]
+    out = [('ks', KS), ('multi', MULTI), ('multi_items', MULTI_ITEMS)]
     out += sorted(MINI.items())
     if with_models:
         fk = smodel.family_K('gk', pairs=[('inte', 'stri'), ('ref', 'list_int')], renamed=True,
